@@ -227,9 +227,9 @@ def report(prop, tier, seed, reg, cs, jobs, results, t0, a):
         code = 2
     for l in lines:
         print(l)
-    print('%s tier=%s contracts=%d jobs=%d paths=%d obligations=%d discharged=%d known=%d undecided=%d violations=%d '
+    print('%s tier=%s contracts=%d jobs=%d paths=%d obligations=%d discharged=%d open(bounded)=%d known=%d undecided=%d violations=%d '
           'crosschecked=%d backends=%s solver=%.1fs wall=%.1fs exit=%d' % (
-              prop, tier, len(cs), len(jobs), paths, n_obl, n_dis, len(knowns), len(undecided), nviol, cross['validated'],
+              prop, tier, len(cs), len(jobs), paths, n_obl, n_dis, len(open_obl), len(knowns), len(undecided), nviol, cross['validated'],
               backends, solver_s, wall, code))
     if a.write_baseline:
         bl = load_baseline()
